@@ -309,6 +309,7 @@ func checkC06(c LimitCase, o *Obs) error {
 		o.Class("write_side_dead")
 	}
 
+	readStart06 := time.Now()
 	lens := make([]int, len(model.Msgs))
 	for i, m := range model.Msgs {
 		lens[i] = len(m.Payload)
@@ -419,6 +420,9 @@ func checkC06(c LimitCase, o *Obs) error {
 		after = append(after, e)
 	}
 	allocated := heapAllocs() - before
+	if err := checkReplyDeadlines(tr.Log, 0, readStart06); err != nil {
+		return err
+	}
 	if withinBig {
 		if rerr == nil || rerr == io.EOF {
 			return fmt.Errorf("a message whose frame claims %d bytes but delivers only a few was reported complete (%d bytes)", claim, len(got))
